@@ -34,6 +34,7 @@ pub struct StepOut {
     pub probes: Vec<&'static str>,
     pub oom_fired: u64,
     pub multi_insert: bool,
+    pub faults_extra: BTreeMap<&'static str, u64>,
 }
 
 pub struct Acc<'a> {
@@ -248,6 +249,7 @@ impl<K: KeyT, V: ValT> World<K, V> {
             probes: Vec::new(),
             oom_fired: 0,
             multi_insert: false,
+            faults_extra: BTreeMap::new(),
         };
         {
             let mut acc = Acc {
